@@ -68,6 +68,7 @@ type phRun struct {
 	runDead   chan string // receives the panic text (or "returned") when Run ends
 	logs      *observer.ObservedLogs
 	seenOwn   int
+	reqFree int                    // free slots of the outbound re-observation request queue before the current step
 	down    bool                   // the store was closed by a StoreDown step
 	lastDB  map[string]interface{} // last projection of the store while it answered
 	ownDB   *db.Database
@@ -228,7 +229,8 @@ func (r *phRun) projState(out []interface{}, panicked string) map[string]interfa
 			loop[d] = len(l)
 		}
 	}
-	s := map[string]interface{}{"gs": r.projSet(p.gs), "gst": r.projSet(p.gst.Get()), "agg": agg, "db": dbm, "loop": loop, "out": out}
+	s := map[string]interface{}{"gs": r.projSet(p.gs), "gst": r.projSet(p.gst.Get()), "agg": agg, "db": dbm, "loop": loop, "out": out,
+		"reqfree": r.reqFree}
 	if panicked != "" {
 		s["panic"] = panicked
 	}
@@ -446,6 +448,8 @@ func (r *phRun) step(st vhStep) {
 	var call func()
 	var send func() bool // run-loop mode: deliver through the channel Run selects on
 	switch st.Ev {
+	case "ReqCap":
+		return // configuration of the scenario, see phReqCap
 	case "SetUpdate":
 		gs := r.set(vhMap(st.A, "set"))
 		call = func() { p.gs = gs; p.gst.Set(p.gs) } // the two statements of the setC case of Run
@@ -516,6 +520,7 @@ func (r *phRun) step(st vhStep) {
 	default:
 		r.w.t.Fatalf("unknown scenario event %q", st.Ev)
 	}
+	r.reqFree = cap(r.reqC) - len(r.reqC)
 	if r.loopMode && send != nil {
 		r.stepLoop(st, send, signStep)
 		return
@@ -611,7 +616,11 @@ func (r *phRun) stepLoop(st vhStep, send func() bool, signStep bool) {
 		return
 	}
 	// the handler signed: its own observation travels back to Run on obsvC by itself; wait until Run handled it
-	deadline := time.Now().Add(5 * time.Second)
+	wait := 3 * time.Second
+	if phLoopbackMissing >= 3 {
+		wait = 50 * time.Millisecond // the verdict of this run is already decided; do not wait again and again
+	}
+	deadline := time.Now().Add(wait)
 	for r.ownObservationsHandled() <= r.seenOwn && time.Now().Before(deadline) {
 		if !r.sync() {
 			break
@@ -627,14 +636,27 @@ func (r *phRun) stepLoop(st vhStep, send func() bool, signStep bool) {
 	if handled {
 		r.w.trace.Emit(r.sc, "Loopback", map[string]interface{}{"d": d}, r.projState(rest, ""))
 	} else {
+		phLoopbackMissing++
 		r.w.trace.Emit(r.sc, "LoopbackMissing", map[string]interface{}{"d": d}, r.projState(rest, ""))
 	}
+}
+
+var phLoopbackMissing int
+
+// phReqCap: capacity of the outbound re-observation request queue of a scenario ("ReqCap" pseudo-step, default large).
+func phReqCap(sc vhScenario) int {
+	for _, st := range sc.Steps {
+		if st.Ev == "ReqCap" {
+			return vhInt(st.A, "n", 8192)
+		}
+	}
+	return 8192
 }
 
 func (w *phWorld) runScenario(sc vhScenario) {
 	r := &phRun{w: w, sc: sc.ID,
 		sendC: make(chan []byte, 8192), obsvC: make(chan *gossipv1.SignedObservation, 8192),
-		reqC:    make(chan *gossipv1.ObservationRequest, 8192),
+		reqC:    make(chan *gossipv1.ObservationRequest, phReqCap(sc)),
 		digests: map[string]string{}, ids: map[string]string{}, idVals: map[string]vaa.VAAID{}, txs: map[string]string{},
 		loop: map[string][]*gossipv1.SignedObservation{}, signed: map[string][]byte{}, bodies: map[string]*vhVAA{}}
 	gst := common.NewGuardianSetState(nil)
